@@ -22,6 +22,7 @@ from lib import gz, gtext, glist, gbool, gopt, gpair
 
 THEOREMS = ['C16_shape_src', 'C16_extends_partial', 'C16_extends_refuted', 'C16_flat_fields', 'C16_flat_override', 'C16_registry_subclasses',
             'C16_xml_poly_rt', 'C16_xml_marker_resolves', 'C16_xml_mono', 'C16_xml_marker_sound',
+            'C16_xsi_target_src', 'C16_xsi_target_spec',
             'C16_hier_poly_rt', 'C16_hier_mono', 'C16_hier_marker_sound',
             'C16_xml_poly_rt_spyne', 'C16_hier_poly_rt_spyne']
 
@@ -733,10 +734,7 @@ def corr_xml(check, desc, b, prelude_for, tag, tier):
                                 # what a receiver parses: the whole document, then its message element
                                 variants.append((payload(proto, parse_xml(etree.tostring(t2))), what))
                         for el, what in variants:
-                            # validator='soft' after a retarget to a primitive consults the nillable of whichever
-                            # customised variant of that primitive the interface registered first: not modelled,
-                            # such documents are run with validator=None only
-                            softs = (False, True) if (rng.random() < 0.3 and not what.startswith('xsd marker')) else (False,)
+                            softs = (False, True) if rng.random() < 0.3 else (False,)
                             for soft in softs:
                                 a2 = soft_app if soft else app
                                 msgcls = a2._c16_classes[m['in']]
@@ -1471,8 +1469,7 @@ def run(check):
         'keys_ok (distinct types have distinct {ns}name keys), sub_names_ok (type names distinct among a class and its '
         'subclasses), pfx_ok of every allocated prefix, populate returns Some (fuel)',
         'the values the oracle runs are conformant in the theorems\' sense (correspondence "conformance"): runtime '
-        'classes other than the declared one are registered; no None inside lists; complex / array members are optional '
-        '(an explicit null complex member is read back as [] by the dict protocols: C02\'s subject)',
+        'classes other than the declared one are registered; no None inside lists; complex / array members are optional',
         'validator=None for the theorems (soft validation is modelled and exercised by the xml_dec correspondence only); '
         'ignore_wrappers=False, complex_as=dict, default polymap, no sub_name / sub_ns / XmlData / XmlAttribute / mixins',
     ]
